@@ -783,9 +783,18 @@ func genWill(prop string) func(tier string, seed uint64, idx int) interface{} {
 			cl := Client{}
 			cl.Ops = append(cl.Ops, Op{K: "barrier"})
 			lives := 1 + r.Intn(rounds)
+			var prev *Op
 			for life := 0; life < lives; life++ {
 				op := Op{K: "connect", CID: fmt.Sprintf("m%d", ci), Clean: r.Bool(1, 2), KA: 600}
-				if r.Bool(3, 4) {
+				same := prev != nil && r.Bool(1, 3)
+				if same {
+					// the very same CONNECT bytes as in the previous life
+					op = *prev
+					if op.Will != nil {
+						w := *op.Will
+						op.Will = &w
+					}
+				} else if r.Bool(3, 4) {
 					sz := 8 + r.Intn(200)
 					if r.Bool(1, 8) {
 						sz = 0
@@ -793,15 +802,21 @@ func genWill(prop string) func(tier string, seed uint64, idx int) interface{} {
 					if r.Bool(1, 10) {
 						sz = 2000 + r.Intn(5000)
 					}
-					op.Will = &Will{Topic: "will/" + x.topic(), QoS: byte(r.Intn(3)), Retain: r.Bool(1, 4), Size: sz}
+					x.willN++
+					op.Will = &Will{Topic: "will/" + x.topic(), QoS: byte(r.Intn(3)), Retain: r.Bool(1, 4), Size: sz, Ver: x.willN}
 				}
 				end := r.Intn(8)
 				if end == 7 && life != lives-1 {
 					end = 2 // only the last life is left open until the end
 				}
-				if end == 5 {
+				if end == 5 && !same {
 					op.KA = 1 + r.Intn(3)
 				}
+				if end == 5 && same && op.KA > 10 {
+					end = 2
+				}
+				keep := op
+				prev = &keep
 				cl.Ops = append(cl.Ops, op)
 				// some traffic
 				for k := r.Intn(4); k > 0; k-- {
